@@ -620,22 +620,48 @@ type RangeArg struct {
 	rbs RangeArgBdrySlice
 }
 
+// RFC 6020; Sec 12:
+//
+//	range-arg      = range-part *(optsep "|" optsep range-part)
+//	range-part     = range-boundary [optsep ".." optsep range-boundary]
+//	range-boundary = min-keyword / max-keyword / integer-value / decimal-value
+//
+// and likewise for length-arg with non-negative-integer-value.
+var rangeBoundaryRe = regexp.MustCompile(`^(min|max|-?(0|[1-9][0-9]*)(\.[0-9]+)?)$`)
+var lengthBoundaryRe = regexp.MustCompile(`^(min|max|0|[1-9][0-9]*)$`)
+
+// splitRangeParts splits a range or length argument into parts of one or
+// two boundaries. Whitespace is only allowed around "|" and "..".
+func splitRangeParts(str string, boundary *regexp.Regexp) ([][]string, bool) {
+	parts := strings.Split(str, "|")
+	out := make([][]string, 0, len(parts))
+	for _, part := range parts {
+		bs := strings.Split(part, "..")
+		if len(bs) > 2 {
+			return nil, false
+		}
+		for i := range bs {
+			bs[i] = strings.Trim(bs[i], " \t\r\n")
+			if !boundary.MatchString(bs[i]) {
+				return nil, false
+			}
+		}
+		out = append(out, bs)
+	}
+	return out, true
+}
+
 func (a *RangeArg) Parse() error {
 	str := string(a.arg)
 	ErrInval := errors.New("invalid argument: " + str)
 
-	/* collapse string */
-	str = strings.Replace(str, " ", "", -1)
-	str = strings.Replace(str, "\t", "", -1)
-	str = strings.Replace(str, "\n", "", -1)
-
-	/* range-part *(optsep "|" optsep range-part) */
-	rparts := strings.Split(str, "|")
+	rparts, ok := splitRangeParts(str, rangeBoundaryRe)
+	if !ok {
+		return ErrInval
+	}
 	a.rbs = make([]argRb, 0, len(rparts))
-	for _, v := range rparts {
-		/* range-boundary [optsep ".." optsep range-boundary] */
+	for _, rbs := range rparts {
 		var r argRb
-		rbs := strings.Split(v, "..")
 		switch len(rbs) {
 		case 1:
 			switch rbs[0] {
@@ -687,20 +713,15 @@ func (a *LengthArg) Parse() error {
 	str := string(a.arg)
 	ErrInval := errors.New("invalid argument: " + str)
 
-	/* collapse string */
-	str = strings.Replace(str, " ", "", -1)
-	str = strings.Replace(str, "\t", "", -1)
-	str = strings.Replace(str, "\n", "", -1)
-
-	/* length-part *(optsep "|" optsep length-part) */
-	lparts := strings.Split(str, "|")
+	lparts, ok := splitRangeParts(str, lengthBoundaryRe)
+	if !ok {
+		return ErrInval
+	}
 	a.lbs = make([]Lb, 0, len(lparts))
-	for _, v := range lparts {
-		/* length-boundary [optsep ".." optsep length-boundary] */
+	for _, bs := range lparts {
 		var l Lb
 		var i uint64
 		var e error
-		bs := strings.Split(v, "..")
 		switch len(bs) {
 		case 1:
 			switch bs[0] {
@@ -711,7 +732,7 @@ func (a *LengthArg) Parse() error {
 				l.Min = true
 				l.EndMin = true
 			default:
-				i, e := strconv.ParseUint(bs[0], 0, 64)
+				i, e := strconv.ParseUint(bs[0], 10, 64)
 				if e != nil {
 					return e
 				}
@@ -723,7 +744,7 @@ func (a *LengthArg) Parse() error {
 			case "min":
 				l.Min = true
 			default:
-				i, e = strconv.ParseUint(bs[0], 0, 64)
+				i, e = strconv.ParseUint(bs[0], 10, 64)
 				if e != nil {
 					return e
 				}
@@ -733,7 +754,7 @@ func (a *LengthArg) Parse() error {
 			case "max":
 				l.Max = true
 			default:
-				i, e = strconv.ParseUint(bs[1], 0, 64)
+				i, e = strconv.ParseUint(bs[1], 10, 64)
 				if e != nil {
 					return e
 				}
